@@ -80,6 +80,7 @@ class FnSpec:
         self.inserts = []       # (kind, arg, n, binder, [lines])
         self.origin = None      # contracts file:line
         self.optional_anchor = False
+        self.rlimit = None
 
 
 def parse_key(key):
@@ -133,6 +134,7 @@ def parse_fn_blocks(lines, origin):
                 elif a.startswith('props='): fs.props = a[6:].split(',')
                 elif a.startswith('rename='): fs.rename = a[7:]
                 elif a == 'assumed': fs.assumed = True
+                elif a.startswith('rlimit='): fs.rlimit = int(a[7:])
                 else: raise AssembleError('%s: bad //@fn option %r' % (fs.origin, a))
             i += 1
             cur = fs.clauses
@@ -153,11 +155,12 @@ def parse_fn_blocks(lines, origin):
                     cur = []
                     fs.inserts.append(('entry', None, 1, None, cur))
                 elif s.startswith('//@before') or s.startswith('//@after') or s.startswith('//@tail'):
-                    m = re.match(r'^//@(before|after|tail)\s+`(.*)`\s*(\d+)?\s*$', s)
+                    m = re.match(r'^//@(before|after|tail)\s+`(.*?)`\s*(\d+)?\s*(?:from=`(.*)`)?\s*$', s)
                     if not m:
                         raise AssembleError('%s:%d bad anchor' % (origin, i + 1))
                     cur = []
-                    fs.inserts.append((m.group(1), m.group(2), int(m.group(3) or 1), None, cur))
+                    # binder slot carries the optional `from` marker for line anchors
+                    fs.inserts.append((m.group(1), m.group(2), int(m.group(3) or 1), m.group(4), cur))
                 elif s.startswith('//@loop'):
                     m = re.match(r'^//@loop\s+(\d+)(?:\s+binder=(\w+))?\s*$', s)
                     if not m:
@@ -436,7 +439,13 @@ def expand_fn(fs, assumed_override=False, notes=None):
             if kind == 'entry':
                 inline.append((0, 1, '\n' + block + '\n', 'entry'))
             elif kind in ('before', 'after'):
-                li = find_line_with(blines, arg, n, 0)
+                lo = 0
+                if binder:
+                    lo = find_line_with(blines, binder, 1, 0)
+                    if lo is None:
+                        lost.append('%s `%s` from `%s`' % (kind, arg, binder))
+                        continue
+                li = find_line_with(blines, arg, n, lo)
                 if li is None:
                     lost.append('%s `%s` #%d' % (kind, arg, n))
                     continue
@@ -507,6 +516,8 @@ def expand_fn(fs, assumed_override=False, notes=None):
         for off, txt in edits:
             body = body[:off] + txt + body[off:]
         out = header + body + '\n'
+        if fs.rlimit:
+            out = '#[verifier::rlimit(%d)]\n' % fs.rlimit + out
     meta = dict(name=fs.key, file=fs.src, lines=[loc['line_start'], loc['line_end']], sha256=sha,
                 mode='assumed' if assumed else 'verified', props=fs.props, deltas=deltas,
                 contract=fs.origin, lost_anchors=lost, vname=fs.rename or name,
